@@ -83,7 +83,9 @@ pub enum Spec {
   /// `ConcatSource`; `how`: 0 = `new` over boxed children (nested concats stay
   /// unflattened), 1 = `add` one by one with nested concats passed typed
   /// (flattened), 2 = `add` one by one with nested concats boxed first, 3 = `new` over typed
-  /// ConcatSource items (flattened by `new`) when all children are concats, else like 0.
+  /// ConcatSource items (flattened by `new`) when all children are concats, or over typed leaf items when all
+  /// children are raw leaves / all are OriginalSources, else like 0; 4 = `new` over the maximal prefix of raw
+  /// leaves as typed items (possibly none), then `add` of every further child typed.
   Concat { how: u8, children: Vec<Spec> },
   /// `ReplaceSource::new(inner)` followed by the replacement calls in order
   Replace { inner: Box<Spec>, repls: Vec<Repl> },
